@@ -330,16 +330,16 @@ Definition variant_value (f : field) : str :=
 (* httpgen/oneof_discriminator.go:155-391 for one discriminated oneof *)
 Definition oneof_checks (sc : schema) (fl : file) (m : message) (o : oneof) : list check :=
   let vs := members m o in
-  (* Errorf("invalid discriminator %q: %%w", name, err) — generateOneofUnmarshalVariants:289 *)
-  mkvet (printf_ok (s "invalid discriminator %q: %%w") 2) ::
+  (* Errorf("invalid discriminator %q: %w", name, err) — generateOneofUnmarshalVariants:289 *)
+  mkvet (printf_ok (s "invalid discriminator %q: %w") 2) ::
   (* switch disc { case "v1": case "v2": ... } *)
   mk (nodup_strb (map variant_value vs)) cls_dupkey ::
   flat_map (fun f => match f_kind f with
                      | KMessage n =>
                          [ (* variant := &MsgType{}   (bare GoName) *)
                            mk (same_pkg sc fl n) cls_undefined;
-                           (* Errorf("failed to unmarshal variant %s: %%w", "F", err) *)
-                           mkvet (printf_ok (s "failed to unmarshal variant %s: %%w") 2) ]
+                           (* Errorf("failed to unmarshal variant %s: %w", "F", err) *)
+                           mkvet (printf_ok (s "failed to unmarshal variant %s: %w") 2) ]
                      | _ => []
                      end) vs.
 
@@ -505,6 +505,17 @@ Definition http_decls (mock : bool) (fl : file) : list str :=
   else [].
 
 Definition all_headers (sv : service) : list header := sv_headers sv ++ flat_map md_headers (sv_methods sv).
+(* clientgen generateHeaderHelperOptions:359-388: one `seen` set of helper names over the service
+   headers and then the method headers; a header whose helper name was already seen is skipped *)
+Fixpoint first_by_fn (seen : list str) (hs : list header) : list header :=
+  match hs with
+  | [] => []
+  | h :: r => let fn := header_fn (h_name h) in
+              if mem_str fn seen then first_by_fn seen r else h :: first_by_fn (fn :: seen) r
+  end.
+Definition helper_svc_headers (sv : service) : list header := first_by_fn [] (sv_headers sv).
+Definition helper_md_headers (sv : service) : list header :=
+  first_by_fn (map (fun h => header_fn (h_name h)) (sv_headers sv)) (flat_map md_headers (sv_methods sv)).
 Definition client_decls (fl : file) : list str :=
   if has_services fl then
     s "<client_constants>" ::
@@ -514,8 +525,8 @@ Definition client_decls (fl : file) : list str :=
        s "With" ++ S ++ s "HTTPClient"; s "With" ++ S ++ s "ContentType"; s "With" ++ S ++ s "DefaultHeader";
        S ++ s "CallOption"; lower_first S ++ s "CallOptions"; s "With" ++ S ++ s "Header";
        s "With" ++ S ++ s "CallContentType"; s "New" ++ S ++ s "Client"] ++
-      map (fun h => s "With" ++ S ++ header_fn (h_name h)) (sv_headers sv) ++
-      map (fun h => s "With" ++ S ++ s "Call" ++ header_fn (h_name h)) (all_headers sv)) (fl_services fl)
+      map (fun h => s "With" ++ S ++ header_fn (h_name h)) (helper_svc_headers sv) ++
+      map (fun h => s "With" ++ S ++ s "Call" ++ header_fn (h_name h)) (helper_svc_headers sv ++ helper_md_headers sv)) (fl_services fl)
   else [].
 
 Definition enum_go_name (fl : file) (e : enum) : str := go_camel (trim_prefix (fl_package fl ++ [dot]) (e_name e)).
@@ -588,7 +599,8 @@ Definition ts_route_consts (sc : schema) (sv : service) (md : method) : list str
    else match input_msg sc md with
         | Some m => match query_fields_of m with
                     | [] => [s "body"]
-                    | _ => [s "url"; s "params"; s "body"]
+                    | _ => (* generateQueryParamParsing:595-598: url only when the path extraction has not declared it *)
+                           match path_params md with [] => [s "url"] | _ => [] end ++ [s "params"; s "body"]
                     end
         | None => [s "body"]
         end) ++
@@ -658,7 +670,6 @@ Definition feature_tags (sc : schema) (fl : file) (m : message) (ft : feature) :
       tag_if (existsb (fun f => f_bytesenc_on f && in_real_oneof f) fs) "annotated-oneof-member"
   | FFlatten => tag_if (existsb (fun f => f_flatten_on f && foreign_msg sc fl (f_kind f)) fs) "unqualified-foreign-type"
   | FOneof =>
-      tag_if (match disc_oneofs m with [] => false | _ => true end) "oneof-errorf-escaped-verb" ++
       tag_if (existsb (fun o => negb (nodup_strb (map variant_value (members m o)))) (disc_oneofs m))
              "oneof-duplicate-discriminator-value" ++
       tag_if (existsb (fun o => existsb (fun f => foreign_msg sc fl (f_kind f)) (members m o)) (disc_oneofs m))
@@ -733,32 +744,27 @@ Definition file_tags (p : plugin) (sc : schema) (fl : file) : list str :=
   end ++
   tag_if (negb (file_imports_used fl)) "service-without-methods".
 
-Definition dup_header_fn (fl : file) : bool :=
-  existsb (fun sv => negb (nodup_strb (map (fun h => header_fn (h_name h)) (all_headers sv)))) (fl_services fl).
 Definition svc_like_method (fl : file) : bool :=
   existsb (fun sv => mem_str (svc_go sv) (map md_go (methods_of fl))) (fl_services fl).
 
 Definition decl_tags (ps : subset) (sc : schema) : list str :=
   if nodup_strb (pkg_decls ps sc) then []
   else
-    let client := match ps with OnlyHttp => false | _ => true end in
     let http := match ps with OnlyClient => false | _ => true end in
     let two_files := Nat.ltb 1 (List.length (filter has_services (gen_files sc))) in
-    let dup_hdr := client && existsb dup_header_fn (gen_files sc) in
     let same_md := http && negb (nodup_strb (map md_go (flat_map methods_of (gen_files sc)))) in
     let svc_md := http && existsb svc_like_method (gen_files sc) in
     tag_if two_files "two-service-files-one-package" ++
-    tag_if dup_hdr "client-duplicate-header-option" ++
     tag_if same_md "same-method-name-two-services" ++
     tag_if svc_md "service-named-like-method" ++
-    tag_if (negb (two_files || dup_hdr || same_md || svc_md)) "package-declaration-clash".
+    tag_if (negb (two_files || same_md || svc_md)) "package-declaration-clash".
 
 Definition go_tags (ps : subset) (sc : schema) : list str :=
   decl_tags ps sc ++
   flat_map (fun p => flat_map (file_tags p sc) (gen_files sc)) (subset_plugins ps).
 
-Definition ts_tags (sc : schema) : list str :=
-  tag_if (negb (ts_loads sc)) "ts-server-url-redeclared".
+(* no TypeScript defect class is left: ts_loads holds for every schema (proofs/EmitFacts.v ts_loads_always) *)
+Definition ts_tags (sc : schema) : list str := tag_if (negb (ts_loads sc)) "ts-const-redeclared".
 
 Fixpoint dedup (l : list str) : list str :=
   match l with [] => [] | x :: r => if mem_str x r then dedup r else x :: dedup r end.
